@@ -39,7 +39,7 @@ Print Assumptions C03_frontlocal_order.
    [response; push]. *)
 Theorem C03_frontlocal_unfixed_refuted :
   owned_logs f8_log /\
-  lookup (got (run_sched false (start f8_log) f8_sched)) 1 = [mkItem 0 1 KResp 1 0; mkItem 0 1 KPush 1 0] /\
+  lookup (got (run_sched false (start f8_log) f8_sched)) 1 = [mkItem 0 1 KResp 1 0 0; mkItem 0 1 KPush 1 0 0] /\
   proj 0 1 (lookup (got (run_sched false (start f8_log) f8_sched)) 1) <> proj 0 1 (lookup f8_log 0).
 Proof. exact frontlocal_unfixed_refuted. Qed.
 Print Assumptions C03_frontlocal_unfixed_refuted.
@@ -75,6 +75,16 @@ Theorem C03_issued_before_arrives_before : forall fixed logs sched i c x y,
 Proof. exact issued_before_arrives_before. Qed.
 Print Assumptions C03_issued_before_arrives_before.
 
+(* Sizes are pure data: run the network on the same logs with every item's size replaced by an
+   arbitrary function of the item, and every queue of every reachable state is the original one
+   with the sizes replaced - the order in which items are issued, processed, written and received
+   does not depend on their sizes (mixing tiny and huge pushes / responses changes nothing). *)
+Theorem C03_order_size_independent : forall fixed logs sched (f : item -> Z),
+  run_sched fixed (start (mapq (resize f) logs)) sched =
+  map_st (resize f) (run_sched fixed (start logs) sched).
+Proof. exact size_independent. Qed.
+Print Assumptions C03_order_size_independent.
+
 (* The stage library: any merge of any number of senders keeps every sender's subsequence ... *)
 Theorem C03_merge_preserves : forall (A : Type) (sender : A -> Z) src out,
   Merge src out -> owned sender src -> forall k, from sender k out = src k.
@@ -96,13 +106,13 @@ Print Assumptions C03_harness_logs_owned.
 
 (* non-vacuity: three issuers, two connections, a schedule that interleaves them and drains *)
 Example C03_example :
-  let logs := [(0, [mkItem 0 1 KPush 1 0; mkItem 0 1 KResp 1 0]);
-               (1, [mkItem 1 1 KPush 2 0; mkItem 1 2 KPush 3 0; mkItem 1 1 KResp 2 0]);
-               (3, [mkItem 3 2 KPush 4 0; mkItem 3 2 KPush 4 1])] in
+  let logs := [(0, [mkItem 0 1 KPush 1 0 0; mkItem 0 1 KResp 1 0 0]);
+               (1, [mkItem 1 1 KPush 2 0 0; mkItem 1 2 KPush 3 0 0; mkItem 1 1 KResp 2 0 0]);
+               (3, [mkItem 3 2 KPush 4 0 0; mkItem 3 2 KPush 4 1 0])] in
   let s := run_sched true (start logs)
              [LIssue 1; LIssue 3; LIssue 0; LIssue 1; LProcess; LIssue 3; LProcess; LWrite 1; LIssue 1;
               LProcess; LIssue 0; LProcess; LProcess; LWrite 2; LWrite 1; LWrite 2; LWrite 1; LWrite 2; LWrite 1] in
   mbox s = [] /\ pend s = [(0, []); (1, []); (3, [])] /\ chs s = [(1, []); (2, [])] /\
-  got s = [(1, [mkItem 0 1 KPush 1 0; mkItem 1 1 KPush 2 0; mkItem 0 1 KResp 1 0; mkItem 1 1 KResp 2 0]);
-           (2, [mkItem 3 2 KPush 4 0; mkItem 1 2 KPush 3 0; mkItem 3 2 KPush 4 1])].
+  got s = [(1, [mkItem 0 1 KPush 1 0 0; mkItem 1 1 KPush 2 0 0; mkItem 0 1 KResp 1 0 0; mkItem 1 1 KResp 2 0 0]);
+           (2, [mkItem 3 2 KPush 4 0 0; mkItem 1 2 KPush 3 0 0; mkItem 3 2 KPush 4 1 0])].
 Proof. vm_compute. repeat split; reflexivity. Qed.
